@@ -43,6 +43,19 @@ check("C08", "exploration",
       "runtime monitoring: model-based differential oracle (Python list) over generated view compositions, rel + overflow-checked builds",
       "DESIGN.md §3 C08")
 
+check("C04", "exploration",
+      "Drives the real parser/evaluator/stdlib with hostile workloads (every std function listed at "
+      "run time x boundary argument tuples, random/mutated source text, recursion across the frame "
+      "limit in 7 shapes x 4 limits, 24 runaway-recursion shapes, self-dependent values, syntactic "
+      "nesting sweep) on the rel and overflow-checked builds while a panic hook, the worker exit "
+      "status and same-thread sentinel evaluations are monitored; held = no panic/abort/stack "
+      "overflow on any observed execution.",
+      "Allocation-failure aborts under RLIMIT_AS (8 GiB; 2 GiB for runaway jobs) are classed "
+      "`resource`, watchdog expiry is inconclusive; both are counted in evidence, not as verdicts. "
+      "Says nothing about inputs outside the generated pools.",
+      "runtime monitoring: panic hook + exit-status monitor + sentinel histories under stress/fuzz workloads, rel and overflow-checked builds",
+      "DESIGN.md §3 C04")
+
 NOT_APPLICABLE = []
 
 
